@@ -6,12 +6,19 @@ normalising a run-id expression never changes what it denotes (spec/Search.tla).
             bounded domain -- part a: all 65 641 expressions; b1: per-entry
             predicate x every constraint combination; b2: set/order/page level
  2. GEN     Search_Gen: TLC enumerates / draws (seeded) the run-id expressions and
-            the databases with their find / page-walk / facet queries
+            the databases with their find / page-walk / facet queries, and the
+            HISTORIES (one behaviour of Search_Gen per history, one transition per
+            step): repeated identical searches in one process with stores, removes,
+            count-preserving swaps and close + open of another database in between
  3. REAL    harness/search_h.py executes them on dawgie.db.basis.SearchFacade._scrub
-            and on real shelve tables through dawgie.db.search() and dawgie.fe.api.*
+            and on real shelve tables through dawgie.db.search() and dawgie.fe.api.*;
+            a history runs in one process state, changes go through util.append,
+            dawgie.db.shelve.remove and DBI().close()/open()
  4. TRACE   Search_Trace: TLC judges every recorded output with the declarative
             operators (CLAUSE -> VIOLATION) and compares with the transcription
-            on the logged index tables (DRIFT); Python only counts and reports
+            on the logged index tables (DRIFT); in a history TLC carries the model
+            database (cur' = HApply(cur, step)) and judges every search against it;
+            Python only counts and reports
 '''
 
 import json
@@ -20,7 +27,8 @@ import os
 from vlib import core, tlc
 
 BASE = {'RangeBug': 'FALSE', 'SliceBug': 'FALSE'}
-COUNTERS = ['scrub_changed', 'find_nonempty', 'find_by_range_nonempty', 'find_inner_window_nonempty', 'walk_two_or_more_pages', 'facet_nonempty', 'result_mixed_width_run_ids']
+COUNTERS = ['scrub_changed', 'find_nonempty', 'find_by_range_nonempty', 'find_inner_window_nonempty', 'walk_two_or_more_pages', 'facet_nonempty', 'result_mixed_width_run_ids',
+            'repeat_same_query_after_equal_size_change', 'repeat_same_query_across_reopen']
 SCRUB_BATCH = 250
 
 
@@ -30,7 +38,7 @@ def mc_consts(part, quick):
 
 def gen(chk, name, seed, **consts):
     cfg = os.path.join(chk.work, f'{name}.cfg')
-    const = dict(BASE, GenPart='"b"', NScrub='0', NDb='1', NFind='1', NPages_='1', NFacet='1')
+    const = dict(BASE, GenPart='"b"', NScrub='0', NDb='1', NFind='1', NPages_='1', NFacet='1', NHist='0', NHSteps='0')
     const.update({k: (v if isinstance(v, str) else str(v)) for k, v in consts.items()})
     tlc.write_cfg(cfg, spec='Spec', constants=const, invariants=['Emit'])
     # TLC seeds its random draws from -seed and from state fingerprints; the fingerprint
@@ -44,7 +52,7 @@ def gen(chk, name, seed, **consts):
     return cases
 
 
-def to_jobs(scrub_cases, db_cases):
+def to_jobs(scrub_cases, db_cases, hist_cases=()):
     jobs = []
     exprs = [c['e'] for c in scrub_cases]
     for i in range(0, len(exprs), SCRUB_BATCH):
@@ -54,6 +62,8 @@ def to_jobs(scrub_cases, db_cases):
         steps += [{'ev': 'Pages', 'args': p} for p in c['pages']]
         steps += [{'ev': 'Facet', 'args': f} for f in c['facets']]
         jobs.append({'id': len(jobs) + 1, 'kind': 'b', 'db': c['db'], 'bump': c['bump'], 'rev': c['rev'], 'off': c.get('off', 0), 'steps': steps})
+    for c in hist_cases:
+        jobs.append({'id': len(jobs) + 1, 'kind': 'h', 'db': c['db'], 'bump': c['bump'], 'rev': c['rev'], 'off': c.get('off', 0), 'steps': c['steps']})
     return jobs
 
 
@@ -69,6 +79,8 @@ def single(job, line):
     '''the job reduced to one step: the replay object of a violation'''
     if job['kind'] == 'a':
         return {'id': 1, 'kind': 'a', 'exprs': [job['exprs'][line - 1]]}
+    if job['kind'] == 'h':  # a history is replayed up to the failing step
+        return dict(job, id=1, steps=job['steps'][:line])
     return {'id': 1, 'kind': 'b', 'db': job['db'], 'bump': job['bump'], 'rev': job['rev'], 'off': job.get('off', 0), 'steps': [job['steps'][line - 1]]}
 
 
@@ -86,6 +98,8 @@ def signature(ev, args):
     '''short class of the failing input (descriptive only; the verdict was TLC's)'''
     if ev == 'Scrub':
         return 'scrub:' + run_kind(args['e'])
+    if 'q' not in args:
+        return ev.lower()
     rk = run_kind(args['q']['run'], args['q']['hasrun'])
     if ev == 'Find':
         i, lim = args['index'], args['limit']
@@ -128,9 +142,14 @@ def execute(chk, pid, jobs):
         ev, args = step_of(byid[tid], line)
         for clause in clauses:
             detail = {'trace': tid, 'line': line, 'event': ev, 'args': args, 'obs': obs.get((tid, line), '(not loaded)')}
-            if byid[tid]['kind'] == 'b':
+            sig = signature(ev, args)
+            if byid[tid]['kind'] in 'bh':
                 detail['db_entries'] = len(byid[tid]['db'])
-            chk.add_violation(clause, signature(ev, args), detail, {'job': single(byid[tid], line)})
+            if byid[tid]['kind'] == 'h':
+                before = [s['ev'] for s in byid[tid]['steps'][: line - 1]]
+                detail['history_before'] = before
+                sig = 'history:' + sig + (',after-change' if any(e in ('Store', 'Remove', 'Reopen') for e in before) else '')
+            chk.add_violation(clause, sig, detail, {'job': single(byid[tid], line)})
     # vacuity counters (TLC's) and the distinct non-trivial inputs (counted here)
     totals = [0] * len(COUNTERS)
     nontrivial = set()
@@ -141,7 +160,8 @@ def execute(chk, pid, jobs):
         job = byid[tid]
         dbkey = json.dumps([job.get('db'), job.get('bump'), job.get('rev'), job.get('off')], sort_keys=True)
         for line in lines:
-            nontrivial.add(dbkey + json.dumps(step_of(job, line), sort_keys=True))
+            ctx = json.dumps(job['steps'][: line - 1], sort_keys=True) if job['kind'] == 'h' else ''
+            nontrivial.add(dbkey + ctx + json.dumps(step_of(job, line), sort_keys=True))
     if len(rows['STAT']) != len(jobs):
         raise core.Machinery(f'{len(rows["STAT"])} trace summaries for {len(jobs)} jobs')
     return dict(zip(COUNTERS, totals)), len(nontrivial)
@@ -163,14 +183,15 @@ def run(pid, tier, seed, replay=None):
     chk.mc('mc', 'Search_MC.tla', dict(spec='Spec', constants=mc_consts('all', not thorough), invariants=['C17_Scrub', 'C17_Find', 'C17_Pages', 'C17_Facet']))
     # 2. GEN: inputs chosen by TLC
     if thorough:
-        cases = gen(chk, 'gen', seed, GenPart='"ab"', NScrub=0, NDb=300, NFind=40, NPages_=8, NFacet=8)
+        cases = gen(chk, 'gen', seed, GenPart='"abh"', NScrub=0, NDb=300, NFind=40, NPages_=8, NFacet=8, NHist=200, NHSteps=40)
     else:
-        cases = gen(chk, 'gen', seed, GenPart='"ab"', NScrub=3000, NDb=24, NFind=20, NPages_=4, NFacet=4)
+        cases = gen(chk, 'gen', seed, GenPart='"abh"', NScrub=3000, NDb=24, NFind=20, NPages_=4, NFacet=4, NHist=24, NHSteps=24)
     scrub_cases = [c for c in cases if c['kind'] == 'a']
     db_cases = [c for c in cases if c['kind'] == 'b']
-    if not scrub_cases or not db_cases:
+    hist_cases = [c for c in cases if c['kind'] == 'h']
+    if not scrub_cases or not db_cases or not hist_cases:
         raise core.Machinery('generation produced no cases')
-    jobs = to_jobs(scrub_cases, db_cases)
+    jobs = to_jobs(scrub_cases, db_cases, hist_cases)
     # 3 + 4. real code, then TLC on the records
     counters, distinct = execute(chk, pid, jobs)
     chk.counters.update(counters)
@@ -178,6 +199,8 @@ def run(pid, tier, seed, replay=None):
         expressions=len(scrub_cases),
         databases=len(db_cases),
         steps=sum(len(j['steps']) for j in jobs if j['kind'] == 'b'),
+        histories=len(hist_cases),
+        history_steps=sum(len(j['steps']) for j in jobs if j['kind'] == 'h'),
         distinct_nontrivial=distinct,
     )
     empty = [k for k in COUNTERS if counters[k] == 0]
@@ -193,12 +216,15 @@ def run(pid, tier, seed, replay=None):
         'index 0..6, limit none/1/2/3',
         'order among entries with equal run id is not constrained (the statement fixes run-id order only); an empty run-id expression means "no constraint" (as the front end does)',
         'one version per name and run (optionally a newer version from run 3 on); the value constraint and the run-id facet are not part of the property (not reachable from fe.api)',
+        'histories: one process, <= ~40 steps over subsets of the same grid; changes = store / remove of 1..3 entries, swaps that keep the number of primary keys, '
+        'close + open of another database (equal or other size); a search is judged against the database as it is when the search is made',
         'shelve back end only, opened locally (DBI().open()); the PostgreSQL implementation is not reached (no server)',
     ]
     return chk.finish(
         'expressions: every run-id expression of the domain (thorough) or a seeded sample of 3000 (quick), each normalised by the real _scrub in three input forms; '
         'databases: structured ones plus TLC-drawn subsets of the grid in five density classes, each filled into real shelve tables and queried with TLC-drawn '
-        'find / page-walk / facet queries over the full constraint space, through dawgie.db.search() and the fe.api wrappers. '
+        'find / page-walk / facet queries over the full constraint space, through dawgie.db.search() and the fe.api wrappers; '
+        'histories: TLC behaviours of searches (three of four repeat the same question) interleaved with stores, removes, count-preserving swaps and reopen, run in one process. '
         'non-trivial = normalisation changed the expression / find with a non-empty match / walk over >= 2 pages / facet with a non-empty match; distinct by (database, query)'
     )
 
